@@ -57,6 +57,10 @@ var sha3Linked bool
 
 func c17Draw(t *core.Tape, bigLog []byte) c17Req {
 	idx := []int{math.MinInt32, -1, 0, 1, 2, 3, 4, 5, math.MaxInt32, 0, 1, 2, 3, 0, 1, 2, 3}[t.Draw(17)]
+	if t.Chance(1, 8) {
+		// indices that are 0..3 only after truncation to 8, 16 or 32 bits (int is 64 bits wide here), and the extremes
+		idx = []int{1 << 32, 1<<32 + 2, 3<<32 + 3, 1 << 62, 1<<16 + 1, 1<<8 + 2, 256, -(1 << 32), -(1 << 32) + 1, math.MaxInt64, math.MinInt64}[t.Draw(11)]
+	}
 	if t.Bool() {
 		l := []int{0, 1, 47, 48, 49, 64, 48, 48, 48, 48}[t.Draw(10)]
 		return c17Req{index: idx, digest: t.Bytes(l)}
@@ -338,7 +342,7 @@ func init() {
 	register(&core.Check{
 		ID:    "C17",
 		Level: "exploration",
-		Rule: "per run a history of 1-12 extend requests (ExtendDigestClient / ExtendEventLogClient; index in {-2^31,-1,0..5,2^31-1}, digest length {0,1,47,48,49,64}, hash {SHA-1,SHA-256,SHA-384,SHA-512,0}, log {nil,empty,1 B,1 MiB,random}) against a model TSM (configfsi.Client) that starts empty or with pre-existing entries (same index / other / unbound / unreadable index / all four) and implements register extension, showing an unbound entry's index as a read error / empty / -1 and a bound one with or without trailing newline (tape); every third run injects an I/O error at the k-th client call; every third run the TSM's operations take simulated time (1 ms .. 31 s per operation, fake-clock bubble; the registers are examined an hour after the request returned). " +
+		Rule: "per run a history of 1-12 extend requests (ExtendDigestClient / ExtendEventLogClient; index in {-2^31,-1,0..5,2^31-1} and values that are 0..3 only modulo 2^8 / 2^16 / 2^32, digest length {0,1,47,48,49,64}, hash {SHA-1,SHA-256,SHA-384,SHA-512,0}, log {nil,empty,1 B,1 MiB,random}) against a model TSM (configfsi.Client) that starts empty or with pre-existing entries (same index / other / unbound / unreadable index / all four) and implements register extension, showing an unbound entry's index as a read error / empty / -1 and a bound one with or without trailing newline (tape); every third run injects an I/O error at the k-th client call; every third run the TSM's operations take simulated time (1 ms .. 31 s per operation, fake-clock bubble; the registers are examined an hour after the request returned). " +
 			"distinct = (call kind, index bucket, validity, fault fired, outcome)",
 		Assumptions: []string{"the model TSM refuses a second entry for an index (EBUSY), as configfs-tsm does", "linuxtsm.MakeClient (real configfs) is the far side of the seam and is not exercised"},
 		RealStub:    map[string]string{"rtmr.ExtendDigestClient / ExtendEventLogClient": "real", "go-configfs-tsm rtmr.ExtendDigest": "real", "configfs-tsm": "stub (world.TSM model)"},
